@@ -1,7 +1,7 @@
 SPECIFICATION Spec
 CONSTANTS
-  Wide = FALSE
-  Kinds = {"vec", "alvec"}
+  Wide = TRUE
+  Kinds = {"inv3"}
 INVARIANT RoundTrip
 INVARIANT VecRoundTrip
 INVARIANT Length
